@@ -9,10 +9,12 @@ CONSTANTS
   PSeps <- R_PSeps
   Comments <- R_Comments
   Eols <- R_Eols
-  MaxRR = 2
+  MaxRR = 1
   MaxDir = 0
-  MaxBlank = 1
-  MaxEntries = 3
+  MaxBlank = 0
+  MaxEntries = 1
+  MinRR = 0
+  FirstRR <- NoFirst
   Opt <- R_Opt
 INVARIANTS PTypeOK C20_Denotes C20_LayoutIndependent
 CHECK_DEADLOCK FALSE
